@@ -5,6 +5,7 @@ use bytes::buf::{Chain, Limit, UninitSlice};
 use bytes::{BufMut, BytesMut};
 use serde_json::Value;
 use std::fmt::Write as _;
+#[cfg(feature = "std")]
 use std::io::Write as _;
 use std::mem::MaybeUninit;
 use std::panic::{catch_unwind, AssertUnwindSafe};
@@ -61,8 +62,11 @@ fn leaf(out: &mut String, ty: &str, fixed: bool, room: usize, w: &[u8], guard: b
     jbytes(out, w);
     out.push('}');
 }
-fn guards_ok(arena: &[u8], n: usize) -> bool {
-    arena[..G].iter().all(|&b| b == GB) && arena[G + n..].iter().all(|&b| b == GB)
+// the guard bytes around a fixed target are intact, and so is everything behind the write
+// cursor (`done` bytes are written): an operation stores its bytes at the cursor "and nothing
+// else" (the harness itself never writes ahead of an advance_mut)
+fn guards_ok(arena: &[u8], n: usize, done: usize) -> bool {
+    arena[..G].iter().all(|&b| b == GB) && arena[G + n..].iter().all(|&b| b == GB) && arena[G + done.min(n)..G + n].iter().all(|&b| b == FILL)
 }
 
 impl Sink for VecSink {
@@ -90,7 +94,7 @@ impl Sink for BytesMutSink {
 impl Sink for SliceSink {
     fn info(&self, out: &mut String) {
         let done = self.n - self.cur.len().min(self.n);
-        leaf(out, "slice", true, self.cur.len(), &self.arena[G..G + done], guards_ok(self.arena, self.n))
+        leaf(out, "slice", true, self.cur.len(), &self.arena[G..G + done], guards_ok(self.arena, self.n, done))
     }
     fn set_limit(&mut self, _: &[u64], _: usize) -> bool {
         false
@@ -102,7 +106,7 @@ impl Sink for SliceSink {
 impl Sink for UninitSink {
     fn info(&self, out: &mut String) {
         let done = self.n - self.cur.len().min(self.n);
-        leaf(out, "uninit", true, self.cur.len(), &self.arena[G..G + done], guards_ok(self.arena, self.n))
+        leaf(out, "uninit", true, self.cur.len(), &self.arena[G..G + done], guards_ok(self.arena, self.n, done))
     }
     fn set_limit(&mut self, _: &[u64], _: usize) -> bool {
         false
@@ -287,6 +291,7 @@ pub fn run_mut_program(p: &Value, out: &mut String) {
         let name = o["op"].as_str().unwrap_or("");
         let n = dec(&o["n"]);
         let m = o["m"].as_str().unwrap_or("");
+        #[allow(unused_mut)]
         let mut d = bytes_of(&o["d"]);
         let mut rn: i64 = 0;
         let mut flag = true;
@@ -373,6 +378,7 @@ pub fn run_mut_program(p: &Value, out: &mut String) {
                     let path: Vec<u64> = o["path"].as_array().map(|a| a.iter().filter_map(|x| x.as_u64()).collect()).unwrap_or_default();
                     flag = b.set_limit(&path, n);
                 }
+                #[cfg(feature = "std")]
                 "write" if m == "all" => {
                     // write_all: transfers what fits, Ok iff everything fitted; rn = bytes transferred
                     let before = BufMut::remaining_mut(&**root.as_ref().unwrap());
@@ -385,6 +391,7 @@ pub fn run_mut_program(p: &Value, out: &mut String) {
                     // (remaining_mut of growing targets saturates: count from the result)
                     rn = if flag { d.len() as i64 } else { before.saturating_sub(after) as i64 };
                 }
+                #[cfg(feature = "std")]
                 "write" if m == "vectored" && d.len() >= 2 => {
                     // write_vectored with two non-empty slices: the provided method writes the first
                     // non-empty slice only, i.e. it is write(first slice) -- logged as such
@@ -398,6 +405,7 @@ pub fn run_mut_program(p: &Value, out: &mut String) {
                     root = Some(w.into_inner());
                     d.truncate(h);
                 }
+                #[cfg(feature = "std")]
                 "write" => {
                     let mut w = root.take().unwrap().writer();
                     let got = w.write(&d);
